@@ -17,6 +17,10 @@ def run(ctx):
              "ClaimIsMature, then ValidateProof at height S+W*B+1 with every target index to find the accepted leaf while a recording context "
              "notes which height GetPrevBlockHash is asked for and which block's hash it returned (each block has its own hash); "
              "non-trivial = claim accepted; distinct = distinct trace line")
+    ctx.rule("c31 (round b): (a) every win line also runs the same ValidateProof scan AT the claim height H in an honest world (context cache = past heights only, "
+             "real empty tendermint block store): unavailable before S+W*B, same leaf from S+W*B on; (b) gpbh lines: the real Context.GetPrevBlockHash over a real "
+             "block store with block metas of some of the 6 past heights and a context cache with some of them, for every height from ctxH-7 to ctxH+4; each source "
+             "(own header / cached context / block store; LastBlockId hash or ConsensusHash fallback) answers with its own hash family; spec: no answer for a height above the context height")
     ctx.trust("pc.Hash (SHA3-256) and encoding/json are not modelled: the seed bytes and the first 8 hash bytes are compared/consumed")
     ctx.assume("BlocksPerSession and ClaimSubmissionWindow are the same at the session context and at the current context")
     n = 30000 if ctx.thorough else 2500
